@@ -23,6 +23,9 @@ ASSUMPTIONS = [
 ]
 
 
+_BUFFERS = {}
+
+
 def _vk(key):
     return "%d%d" % key
 
@@ -93,7 +96,12 @@ def solve_with_reference(ctx, U, key, Ckeys, strain, case):
     """Give the solver C's exact components and return (result, expected, frame info)."""
     from cij.core.phonon_contribution.shear import ShearElasticModulusPhononContribution as Shear
     ckey = U.c_(*key)
-    obj = ctx.observe(Shear, np.asarray(strain, dtype=float), ckey, _bucket="C03/ctor", _case=case)
+    # callers keep work buffers: the same array object is refilled in place for the next triple (the solver must not
+    # remember anything about an array by its identity)
+    arr = np.asarray(strain, dtype=float)
+    buf = _BUFFERS.setdefault(arr.shape, np.empty(arr.shape))
+    buf[...] = arr
+    obj = ctx.observe(Shear, buf, ckey, _bucket="C03/ctor", _case=case)
     T, D = ctx.observe(frame_checks, ctx, obj, key, strain, case, _bucket="C03/frame-crash", _case=case)
     C = tensor_from_keys(Ckeys)
     Crot = keys_from_tensor(rotate(C, T))
